@@ -259,6 +259,7 @@ FinalQ(a, e, l, ws) ==
               ELSE a4
         \* C15: graceful shutdown drains the streams in flight and then closes the connection
         idleEps == {ep \in DOMAIN ws : a.graceful[ep] /\ ~e.wblocked[ep] /\ ~ws[ep].tainted /\ a.firstEnd[ep][1] = ""
+                                        /\ ws[ep].myPings = <<>>         \* (the peer acknowledged every PING, the shutdown ping included)
                                         /\ ~\E j \in 1..Len(e.out) : e.out[j].ep = ep}
         a6 == IF idleEps # {} /\ (\A x \in idleEps : ~a.real[Other(x)])     \* (the scripted peer acknowledges every PING)
               THEN Check(a5, "C15.graceful_completes", \A ep \in idleEps : e.conn[ep] = "done", l, "", 0, [ep \in idleEps |-> e.conn[ep]])
@@ -297,7 +298,8 @@ GoAwayApi(a, e, l, ws) ==
     ELSE IF e.call = "send_request" /\ e.res = "ok" /\ ws[ep].goInBound
     THEN Viol(Hit(a, "C15.no_request_after_goaway"), "C15.no_request_after_goaway", l, ep, e.sid, "send_request accepted after a GOAWAY had been received and processed")
     ELSE IF e.call = "send_request" /\ e.res = "err" /\ ws[ep].goInBound THEN Hit(a, "C15.no_request_after_goaway")
-    ELSE IF e.call = "conn_poll" /\ e.res \in {"ok", "err"} /\ a.firstEnd[ep][1] = "goaway_in"
+    ELSE IF e.call = "conn_poll" /\ e.res \in {"ok", "err"} /\ a.firstEnd[ep][1] = "goaway_in" /\ ~ws[ep].mustConn
+         \* (a connection error the peer committed - e.g. a stray SETTINGS ACK read together with its GOAWAY - may be reported instead)
     THEN \* the connection's result reports the peer's error code
          \* (when the peer sent several GOAWAYs, reporting any of them is accepted - also a NO_ERROR one as success)
          Check(a, "C15.conn_result", \/ (e.res = "err" /\ e.e.kind = "goaway" /\ e.e.remote /\ <<"goaway", ErrCode(e.e)>> \in a.connCause[ep])
